@@ -382,8 +382,12 @@ Fixpoint late_default (n : str) (body : list sstmt) : bool :=
   | st :: r => if declares n st then existsb is_default r else late_default n r
   end.
 
-(* region 2: n is given PROTECTED (FORD stores one keyword per entity) *)
+(* region 2: n is given PROTECTED together with an accessibility that FORD's single keyword per entity
+   cannot carry: an explicit PUBLIC or PRIVATE, or the PRIVATE default *)
 Definition protected_given (n : str) (body : list sstmt) : bool := has Protected (explicit_specs n body).
+Definition protected_conflict (n : str) (body : list sstmt) : bool :=
+  let ex := explicit_specs n body in
+  has Protected ex && (has Public ex || has Private ex || perm_eqb (default_access body) Private).
 
 (* region 3: the identifier is declared more than once in the scope (several generic blocks of one
    name, or a type and its constructor interface): attr_dict[name] is deleted after the first *)
@@ -401,7 +405,7 @@ Definition stmt_blank_free (st : sstmt) : bool :=
 Definition names_blank_free (body : list sstmt) : bool := forallb stmt_blank_free body.
 
 Definition region (body : list sstmt) (n : str) : nat :=
-  (if late_default n body then 1 else 0) + (if protected_given n body then 2 else 0)
+  (if late_default n body then 1 else 0) + (if protected_conflict n body then 2 else 0)
   + (if declared_twice n body then 4 else 0) + (if names_blank_free body then 0 else 8).
 
 Definition top_level (e : ent) : bool :=
